@@ -21,7 +21,7 @@ struct World
   Db* dbin; DbGrid* grid; Db* dbout; Model* model; ANeigh* neighU; ANeigh* neighM;
 };
 
-static World makeWorld(Rng& rng, Stats& st)
+static World makeWorld(Rng& rng, Stats& st, bool bare = false)
 {
   World w{};
   w.ndim = 2; w.nvar = rng.coin(0.7) ? 1 : 2;
@@ -36,8 +36,10 @@ static World makeWorld(Rng& rng, Stats& st)
   int extra = (int)rng.range(0, 2);
   for (int k = 0; k < extra; k++) w.dbin->addColumnsByConstant(1, (double)k, rng.coin() ? "Kriging" : "aux", rng.coin(0.3) ? ELoc::fromValue(8) : ELoc::UNKNOWN);
   VectorInt nx = {(int)rng.range(2, 4), (int)rng.range(2, 4)};
-  w.grid = DbGrid::create(nx, {1., 1.}, {0., 0.});
-  int gextra = (int)rng.range(0, 2);
+  // bare world: the output grid has never held a column (first created variable gets UID 0)
+  if (bare) w.grid = DbGrid::create(nx, {1., 1.}, {0., 0.}, VectorDouble(), ELoadBy::SAMPLE, VectorDouble(), VectorString(), VectorString(), false, false);
+  else w.grid = DbGrid::create(nx, {1., 1.}, {0., 0.});
+  int gextra = bare ? 0 : (int)rng.range(0, 2);
   for (int k = 0; k < gextra; k++) w.grid->addColumnsByConstant(1, 7. + k, rng.coin() ? "Kriging.z1.estim" : "old", rng.coin(0.3) ? ELoc::Z : ELoc::UNKNOWN);
   auto X0 = genPoints(rng, 4, w.ndim, 6);
   w.dbout = makeDb(X0, w.ndim, {}, {}, {}, {});
@@ -79,7 +81,7 @@ int main()
       int nticks;
       {
         Rng rng(seedFromEnv() * 7919 + 19 + iw * 1000003);
-        World w = makeWorld(rng, st);
+        World w = makeWorld(rng, st, iw % 3 == 1);
         if (w.model == nullptr) { freeWorld(w); continue; }
         gstlearn_verif_set_fault(0);
         if (getenv("VERIF_DEBUG")) { fprintf(stderr, "calc %s nvar=%d modelnvar=%d dbinZ=%d\n", c.name, w.nvar, w.model->getVariableNumber(), w.dbin->getLocNumber(ELoc::Z)); for (int ic = 0; ic < w.model->getCovaNumber(); ic++) fprintf(stderr, " cov %d sill %dx%d\n", ic, w.model->getSillValues(ic).getNRows(), w.model->getSillValues(ic).getNCols()); }
@@ -92,7 +94,7 @@ int main()
       {
         if (sc == 0) continue;
         Rng rng(seedFromEnv() * 7919 + 19 + iw * 1000003);       // identical world for every scenario
-        World w = makeWorld(rng, st);
+        World w = makeWorld(rng, st, iw % 3 == 1);
         if (w.model == nullptr) { freeWorld(w); continue; }
         std::string fault = "none";
         if (sc == -2)
